@@ -2,6 +2,7 @@ package furisim
 
 import (
 	"fmt"
+	"strings"
 	"math/rand"
 	"time"
 
@@ -628,7 +629,28 @@ func genFull(seed int64, property string) *Plan {
 		life := int64(50 + r.Intn(1500))
 		p.Ops = append(p.Ops, UserOp{AtMs: at, Kind: "createJob", NS: "default", Name: jp.Name, Job: &jp})
 		p.Ops = append(p.Ops, UserOp{AtMs: at + life, Kind: "deleteJob", NS: "default", Name: jp.Name})
-		p.Lags = append(p.Lags, LagPlan{AtMs: at - 200, DurMs: life + 1000 + int64(r.Intn(6000)), Res: "pods"})
+		lag := LagPlan{AtMs: at - 200, DurMs: life + 1000 + int64(r.Intn(6000)), Res: "pods"}
+		switch r.Intn(3) {
+		case 0:
+			// the watch is re-established while the cache is still held and after the Pod has
+			// gone: the cache never contains the Pod and delivers no event for it
+			p.Relists = append(p.Relists, RelistPlan{AtMs: at + life + int64(400+r.Intn(2500)), Res: "pods"})
+			lag.DurMs = life + 4000 + int64(r.Intn(4000))
+		case 1:
+			// not deleted by the user: it finishes by itself and is cleaned up by a TTL of 0
+			// while its (finished) Pod has not reached the cache
+			p.Ops = p.Ops[:len(p.Ops)-1]
+			jp.TTLSec = i64(0)
+			fin := int64(300 + r.Intn(3000))
+			if p.PodOverride == nil {
+				p.PodOverride = map[string]PodScript{}
+			}
+			for _, suffix := range []string{"gezdqo-0"} {
+				p.PodOverride["brief-0-"+suffix] = PodScript{ScheduleMs: 100, RunMs: 200, FinishMs: fin, Outcome: "succeed", TermMs: 300}
+			}
+			lag.DurMs = 300 + fin + 1500 + int64(r.Intn(5000))
+		}
+		p.Lags = append(p.Lags, lag)
 	}
 	if property == "C15" && r.Intn(3) == 0 {
 		// a queued Job that lives and dies entirely while the JobConfig cache is held
@@ -735,6 +757,28 @@ func genFull(seed int64, property string) *Plan {
 	}
 	if faulty && (property == "C02" || property == "C20") && r.Intn(3) == 0 {
 		p.WebhookDown = append(p.WebhookDown, LagPlan{AtMs: int64(r.Intn(int(durMs))), DurMs: int64(500 + r.Intn(20000))})
+	}
+	if (property == "C20" || property == "C02") && cron && r.Intn(5) == 0 {
+		// an admission outage that swallows a schedule time's first creation attempts (the
+		// retry back-off grows to several seconds), then the first creation that goes
+		// through loses its acknowledgement; Jobs are short and cleaned up immediately
+		period := int64(0)
+		for _, jc := range p.JobConfigs {
+			if len(jc.Cron) == 1 && strings.HasPrefix(jc.Cron[0], "*/") {
+				fmt.Sscanf(jc.Cron[0], "*/%d", &period)
+				break
+			}
+		}
+		if period > 0 {
+			t := epoch.Unix() + 15 + int64(r.Intn(int(durMs/2000)))
+			t = (t/period + 1) * period
+			at := (t-epoch.Unix())*1000 - 300
+			dur := int64(5000 + r.Intn(13000))
+			p.WebhookDown = append(p.WebhookDown, LagPlan{AtMs: at, DurMs: dur})
+			p.Pinned = append(p.Pinned, PinnedFault{Ctrl: "cron", Verb: "create", Res: "jobs", AfterMs: at + dur, Fault: "lostack"})
+			p.Dyn.DefaultTTLSec = i64(0)
+			p.PodScripts = []PodScript{{ScheduleMs: 100, RunMs: 200, FinishMs: int64(300 + r.Intn(1200)), Outcome: "succeed", TermMs: 300}}
+		}
 	}
 	if crashes {
 		n := 1 + r.Intn(2)
